@@ -241,7 +241,7 @@ func judgeCtor(m *mon.M, sp *ctorSpec, key []byte, r *rand.Rand) {
 func TestC12(t *testing.T) {
 	m := mon.New(t, "C12")
 	defer m.Done()
-	m.Rule("streams: per cipher, case i fixes the key length deterministically (Blowfish 1+(i mod 56); Twofish 16/24/32 by i mod 3; CAST5/TEA/XTEA 16), draws the key (70% random, else zero/ones/repeated byte/short period) and 4 blocks (3 random + one of zero/ones/single-bit/single-zero-bit); per block the monitor judges Encrypt vs oracle (separate + in place), Decrypt(Encrypt(x))=x (separate + in place) and Decrypt(x) vs oracle. Blowfish salted: NewSaltedCipher(key 1..72+, salt) then j rounds of ExpandKey(key)/ExpandKey(salt) as bcrypt does, vs the EksBlowfish ref (verdict for 16-byte salts; other salt lengths: inversion only, cyclic reading observed). TEA: rounds from {0,2,4,8,16,32,64,128,even<=400} (ref with rounds/2 cycles), odd rounds must be refused, negative even rounds: either refusal or an invertible cipher. Exhaustive parts (batch 0): every constructor x every key length 0..64 (Blowfish 0..130), nil and empty key; every Blowfish key length 1..56 x 3 keys. distinct = (cipher, key length, key kind[, rounds class / salt length]); non-trivial = reached an oracle comparison or a constructor verdict")
+	m.Rule("streams: per cipher, case i fixes the key length deterministically (Blowfish 1+(i mod 56); Twofish 16/24/32 by i mod 3; CAST5/TEA/XTEA 16), draws the key (70% random, else zero/ones/repeated byte/short period) and 4 blocks (3 random + one of zero/ones/single-bit/single-zero-bit); per block the monitor judges Encrypt vs oracle (separate + in place), Decrypt(Encrypt(x))=x (separate + in place) and Decrypt(x) vs oracle. Blowfish salted: NewSaltedCipher(key 1..72+, salt) then j rounds of ExpandKey(key)/ExpandKey(salt) as bcrypt does, vs the EksBlowfish ref (verdict for 16-byte salts; other salt lengths: inversion only, cyclic reading observed). TEA: rounds from {0,2,4,8,16,32,64,128,even<=400} (ref with rounds/2 cycles), odd rounds must be refused, negative even rounds: either refusal or an invertible cipher. Enumerated parts: every constructor x every key length 0..64 (Blowfish 0..130), nil and empty key; every Blowfish key length 1..56 x 3 keys. distinct = (cipher, key length, key kind[, rounds class / salt length]); non-trivial = reached an oracle comparison or a constructor verdict")
 	m.Assume("Blowfish ref derives P/S from pi (Machin, math/big), self-tested on Schneier's vectors, on bcrypt hashes and against libgcrypt (1..72-byte keys) and nettle (8..56); Twofish ref built from the paper's 4-bit tables, self-tested on the paper's KATs and against nettle (16/24/32) and libgcrypt (16/32); TEA/XTEA refs transcribed from the reports, big-endian words as in the published byte-level vectors; CAST5 judged by agreement of libgcrypt and nettle")
 	m.Assume("a C witness that abstains (libgcrypt/nettle refuse Blowfish weak keys) is skipped; conflicting oracles give Inconclusive")
 	m.Note("RC2 (pkcs12/internal/rc2) is not importable from the harness: covered only through pkcs12.Decode of openssl-made PBE-SHA1-RC2-40 files (Decrypt, 5-byte keys, 40 effective bits = the only configuration reachable in this module); direct Encrypt/Decrypt and other effective key lengths need a verif re-export hook")
@@ -515,7 +515,7 @@ func TestC12(t *testing.T) {
 	})
 
 	// ---------------- exhaustive: every Blowfish key length, both cipher directions ----------------
-	m.Each("blowfish-every-keylen", 56*3, func(i int64, r *rand.Rand) {
+	m.Cases("blowfish-every-keylen", 56*3, func(i int64, r *rand.Rand) {
 		klen := 1 + int(i%56)
 		key := mon.Bytes(r, klen)
 		wit := map[string]any{"cipher": "blowfish", "key": mon.FullHex(key)}
